@@ -349,6 +349,7 @@ int main(int argc, char** argv)
                                              "block:mutated", "block:badconnect", "block:badpow", "block:valid", "headers:badpow", "headers:noncont", "cmpct:badconnect"};
     std::vector<std::string> A_FULL = A_BASE;
     for (const char* k : {"tx:lowfee", "tx:trailing", "tx:premature", "cmpct:badpow"}) A_FULL.push_back(k);
+    const std::vector<std::string> A_EXTRA = {"tx:lowfee", "tx:trailing", "tx:premature", "cmpct:badpow"};
     const std::vector<std::string> A_TXPROBE = {"tx:valid", "tx:amount", "block:badconnect"};       // what -blocksonly changes
     const std::vector<std::string> A_PUNISH = {"block:badconnect", "headers:badpow", "tx:script"};  // what a local address changes
 
@@ -377,8 +378,12 @@ int main(int argc, char** argv)
                           all([&](const Cfg& c) { return c.local && !c.blocksonly; }, 1, &A_PUNISH)});
         stages.push_back({"all sequences of <= 2 messages, base alphabet, inbound peer without permissions", all(deep_quick, 2, &A_BASE)});
     } else {
-        stages.push_back({"all sequences of <= 2 messages, full alphabet, every configuration except the depth-3 ones",
-                          all([&](const Cfg& c) { return !deep_big(c); }, 2, &A_FULL)});
+        // ordered by value per transition; a deadline ends the run after a completed stage or inside one (exhaustive=false)
+        stages.push_back({"1 message of the 4 extra kinds {tx:lowfee, tx:trailing, tx:premature, cmpct:badpow}, all 140 configurations", all([&](const Cfg&) { return true; }, 1, &A_EXTRA)});
+        stages.push_back({"all sequences of <= 2 messages, base alphabet, non-local address, -blocksonly=0 (29 configurations: all but the depth-3 ones)",
+                          all([&](const Cfg& c) { return !c.local && !c.blocksonly && !deep_big(c); }, 2, &A_BASE)});
+        stages.push_back({"all sequences of <= 2 messages, base alphabet, local address or -blocksonly=1 (105 configurations)",
+                          all([&](const Cfg& c) { return c.local || c.blocksonly; }, 2, &A_BASE)});
         stages.push_back({"all sequences of <= 3 messages, base alphabet, {inbound, outbound-full-relay, manual} x {none, noban}, non-local, -blocksonly=0",
                           all(deep_big, 3, &A_BASE)});
     }
@@ -448,7 +453,8 @@ int main(int argc, char** argv)
     E.rule = "explicit-state search of the real PeerManager (fork per transition). state = (peer configuration, message history) - histories are not merged because "
              "PeerManagerImpl's internals are not observable; transition = one handshake (first event) or one P2P message followed by ProcessMessages/SendMessages "
              "rounds as the message-handler thread runs them; histories end when the node marks the peer for disconnection. configuration space: 7 connection types x "
-             "permissions {none,noban,relay,forcerelay,download} x -blocksonly {0,1} x address {local,non-local} = 140, every configuration in exactly one stage. "
+             "permissions {none,noban,relay,forcerelay,download} x -blocksonly {0,1} x address {local,non-local} = 140; the space is explored in stages (a configuration that "
+             "appears in two stages has its handshake state counted in both). "
              "stages completed: " + done;
     E.assume("regtest, in-memory LevelDBs, single-threaded node, synchronous validation signals, fixed mock time (no timeouts fire), one peer per history");
     E.assume("feeler connections receive the messages before their version message (the node disconnects a feeler itself when its version arrives)");
